@@ -212,6 +212,13 @@ def exec_expr(e, st, names, fns, depth, want_value=False):
             elif a.get("e") == "path":
                 v = st.env.get(a["p"])
                 st2.env[pn] = v if v is not None else ("var", a["p"])
+            elif a.get("e") in ("binary", "lit"):
+                try:
+                    vals = exec_expr(a, st, names, fns, depth, want_value=True)
+                    if len(vals) == 1 and vals[0][1] is not None:
+                        st2.env[pn] = vals[0][1]
+                except Unknown:
+                    pass
         st2.notes.append(("call", callee["name"]))
         return [(x, None) for x in exec_block(callee["body"]["stmts"], st2, sub_names, fns, depth + 1)]
     if k == "block":
@@ -231,9 +238,31 @@ def exec_expr(e, st, names, fns, depth, want_value=False):
             st.env[tgt] = ("lin", ladd(cur[1], eval_int(e["b"], st), 1 if e["op"] == "+=" else -1))
             return [(st, None)]
         raise Unknown("compound assign " + synq.src(e))
+    if k == "binary" and e["op"] in ("==", "!=", "<", ">", "<=", ">=", "&&", "||"):
+        # a condition computed ahead of its use (`let same = a == b;`): remember its text with bound names resolved
+        def sub(x):
+            if isinstance(x, dict) and x.get("e") == "path":
+                v = st.env.get(x["p"])
+                if v is not None and v[0] == "var":
+                    return v[1]
+                if v is not None and v[0] == "cond":
+                    return v[1]
+                return x["p"]
+            if isinstance(x, dict) and x.get("e") == "binary":
+                return "(%s %s %s)" % (sub(x["a"]), x["op"], sub(x["b"]))
+            return synq.src(x)
+        return [(st, ("cond", sub(e)))]
     if k == "if":
         outs = []
         cs = synq.src(e["cond"])
+        if e["cond"].get("e") == "path":
+            bound = st.env.get(e["cond"]["p"])
+            if bound is not None and bound[0] == "cond":
+                cs = bound[1]
+        elif e["cond"].get("e") == "unary" and e["cond"].get("op") == "!" and e["cond"]["a"].get("e") == "path":
+            bound = st.env.get(e["cond"]["a"]["p"])
+            if bound is not None and bound[0] == "cond":
+                cs = "!" + bound[1]
         for truth, branch in ((True, e["then"]), (False, e.get("else"))):
             st2 = st.clone()
             st2.notes.append(("cond", cs, truth))
@@ -415,14 +444,17 @@ def run(rec, F, S):
             uncond.add(b)
     virtual = []
     for arm in arms:
-        pops0, rest0 = pattern_ops(arm["pat"])
-        if pops0 is None:
-            virtual.append((arm, None, rest0, synq.pat(arm["pat"])[:70]))
-            continue
-        exps = expand_alternatives(pops0)
-        for pe in exps:
-            nm_ = synq.pat(arm["pat"])[:70] if len(exps) == 1 else "[" + ", ".join("|".join(sorted(x["variants"])) + ("(%s)" % ",".join(x["binds"]) if x["binds"] else "") for x in pe) + (", .." if rest0 else "") + "]"
-            virtual.append((arm, pe, rest0, nm_[:90]))
+        # `[A, A, ..] | [B, B, ..] => ..`: each alternative is a window of its own
+        alts = arm["pat"]["cases"] if arm["pat"].get("p") == "or" and all(c.get("p") == "slice" for c in arm["pat"]["cases"]) else [arm["pat"]]
+        for alt in alts:
+            pops0, rest0 = pattern_ops(alt)
+            if pops0 is None:
+                virtual.append((arm, None, rest0, synq.pat(alt)[:70]))
+                continue
+            exps = expand_alternatives(pops0)
+            for pe in exps:
+                nm_ = synq.pat(alt)[:70] if len(exps) == 1 else "[" + ", ".join("|".join(sorted(x["variants"])) + ("(%s)" % ",".join(x["binds"]) if x["binds"] else "") for x in pe) + (", .." if rest0 else "") + "]"
+                virtual.append((arm, pe, rest0, nm_[:90]))
     rec.floor(R, "single-instruction windows (or-patterns expanded)", len(virtual), 14)
     for arm, pops, rest, pname in virtual:
         loc = "%s:%d" % (PEEPHOLE, arm["line"])
